@@ -6,7 +6,10 @@ import (
 	"fmt"
 	"math"
 	"strconv"
+	"time"
 
+	"github.com/lyraproj/pcore/pcore"
+	"github.com/lyraproj/pcore/px"
 	"verifharness/lib"
 )
 
@@ -22,8 +25,14 @@ func main() {
 		"to positions on both sides of 64; distribution keys shape.*), every pool scalar in every position class, seeded random " +
 		"trees (small; deep and narrow; wide; many positions), each stream played under one of 5 length-hint policies " +
 		"(pb.hint-*), the real Serializer's output on Data values with shared sub-containers under 5 option sets, random JSON " +
-		"texts for the reader (nesting to 19, up to 39 members)"
+		"texts for the reader (nesting to 19, up to 39 members); ANY serializer output (ser.*): values that are not Data - every " +
+		"pair of 25 pool values (strings/integers/arrays/hashes/Sensitive/Binary/Default/regexp/type/timestamp/runtime values whose " +
+		"text is below, at and above the JSON dedup threshold of 20 bytes, several with the SAME text in different kinds) at 9 pairs " +
+		"of positions (key/key, value/key, key/value, nested key, non-first entry, four occurrences, ...), with and without a shared " +
+		"pointer, under the 6 distinct option sets (rich_data x dedup_level; quick: 3 per value by turns), and seeded random rich " +
+		"values with shared sub-values, through the real Serializer into both transports (ser value non-trivial: first key of a hash not a String)"
 	c := newChecker(cfg, res)
+	pcore.SetLogger(discardLogger{}) // rich_data => false logs a warning for every value it turns into a string
 	if cfg.Replay != "" {
 		c.verbose = true
 		replay(c)
@@ -47,6 +56,7 @@ func replay(c *checker) {
 			Hint   int     `json:"hint"`
 			Shared bool    `json:"shared"`
 			Opts   serOpts `json:"opts"`
+			Sv     *SV     `json:"sv"`
 		}
 		lib.Remarshal(in, &x)
 		if x.Hint < 0 || x.Hint >= nHintModes {
@@ -68,6 +78,8 @@ func replay(c *checker) {
 				c.jsonEvent(e, "replay", true)
 				c.pbEvent(e, "replay", true)
 			}
+		case "ser-value":
+			pcore.Do(func(ctx px.Context) { c.serValue(ctx, x.Sv, x.Opts, "replay", true) })
 		case "float-class":
 			b, _ := strconv.ParseUint(x.Bits, 16, 64)
 			c.floatClass(b)
@@ -140,7 +152,9 @@ func run(c *checker, rng *lib.Rng) {
 	maxNodes, nRandom, nText, nData := 6, 20000, 6000, 1500
 	coqExh, coqRandom, coqText, coqScalar, coqPb := 500, 500, 700, 1200, 500
 	coqDeep, nBeyond := 100, 3000
+	nSer, coqSer := 3000, 240
 	if thorough {
+		nSer, coqSer = 200000, 8000
 		coqDeep, nBeyond = 600, 60000
 		maxNodes, nRandom, nText, nData = 8, 600000, 100000, 40000
 		coqExh, coqRandom, coqText, coqScalar, coqPb = 5000, 5000, 6000, 8000, 5000
@@ -296,6 +310,11 @@ func run(c *checker, rng *lib.Rng) {
 			c.pbEvent(e, "serializer-output", nEmitted <= coqPb/4)
 		}
 	}
+	// ---- ANY serializer output: values that are not Data (keys of every kind, Sensitive, Binary, Default, stringified
+	// values, shared sub-values, repeated texts around the dedup threshold) through the real Serializer, every option set
+	t0 := time.Now()
+	pcore.Do(func(ctx px.Context) { c.serFamily(ctx, rng.Fork(), nSer, coqSer, thorough) })
+	c.res.Extra["ser_family_ms"] = time.Since(t0).Milliseconds()
 	// ---- JSON texts for the reader model and the recogniser
 	for i := 0; i < nText; i++ {
 		r := rng.Fork()
